@@ -4199,6 +4199,44 @@ func (l *Lowerer) isConstExpression(handle ir.ExpressionHandle) bool {
 	}
 }
 
+// isConstOperandTree is isConstExpression extended over select and built-in
+// calls whose operands are all constant.
+func (l *Lowerer) isConstOperandTree(handle ir.ExpressionHandle) bool {
+	if l.isConstExpression(handle) {
+		return true
+	}
+	if l.currentFunc == nil || int(handle) >= len(l.currentFunc.Expressions) {
+		return false
+	}
+	if l.nonConstExprs != nil && l.nonConstExprs[handle] {
+		return false
+	}
+	switch k := l.currentFunc.Expressions[handle].Kind.(type) {
+	case ir.ExprSelect:
+		return l.isConstOperandTree(k.Condition) && l.isConstOperandTree(k.Accept) && l.isConstOperandTree(k.Reject)
+	case ir.ExprMath:
+		for _, a := range []*ir.ExpressionHandle{&k.Arg, k.Arg1, k.Arg2, k.Arg3} {
+			if a != nil && !l.isConstOperandTree(*a) {
+				return false
+			}
+		}
+		return true
+	case ir.ExprRelational:
+		return l.isConstOperandTree(k.Argument)
+	case ir.ExprUnary:
+		return l.isConstOperandTree(k.Expr)
+	case ir.ExprBinary:
+		return l.isConstOperandTree(k.Left) && l.isConstOperandTree(k.Right)
+	case ir.ExprAs:
+		return l.isConstOperandTree(k.Expr)
+	case ir.ExprSwizzle:
+		return l.isConstOperandTree(k.Vector)
+	case ir.ExprAccessIndex:
+		return l.isConstOperandTree(k.Base)
+	}
+	return false
+}
+
 // constEvalExprToU32 tries to evaluate an expression as a compile-time constant u32.
 // This matches Rust naga's const_eval_expr_to_u32: it checks if the expression is a
 // const expression (literal, constant, etc.) and evaluates it to a u32 value.
@@ -5523,12 +5561,10 @@ func (l *Lowerer) lowerBinary(bin *parser.BinaryExpr, target *[]ir.Statement) (i
 
 	// An integer division or remainder whose operands are both constant and
 	// whose divisor is zero is a shader-creation error, not a run-time value.
-	if op == ir.BinaryDivide || op == ir.BinaryModulo {
-		if litL, okL := l.extractConstLiteral(left); okL && isIntegerLiteral(litL) {
-			if litR, okR := l.extractConstLiteral(right); okR && isIntegerLiteral(litR) {
-				if vr, _ := literalToI64(litR); vr == 0 {
-					return 0, errConstIntDivByZero
-				}
+	if (op == ir.BinaryDivide || op == ir.BinaryModulo) && l.isConstOperandTree(left) {
+		if litR, okR := l.extractConstLiteral(right); okR && isIntegerLiteral(litR) {
+			if vr, _ := literalToI64(litR); vr == 0 {
+				return 0, errConstIntDivByZero
 			}
 		}
 	}
